@@ -8,7 +8,7 @@ CONSTANTS
   BindVals <- BV1
   MaxBindings = 3
   Enabled = {"Bind", "EnterScope", "ExitScope"}
-  NameOrder <- Names6
+  NameOrder <- Names8
   HookUniverse = {}
   BindApis <- AllApis
   FreshConfs = {}
